@@ -195,3 +195,21 @@ def ws_echo_plugin():
             out.data = frame.data
             self.client.queue(memoryview(out.build()))
     return WsEcho
+
+
+def ws_sink_plugin():
+    """A web-server route plugin that upgrades /ws to WebSocket and swallows every frame (no output: an adversary that makes the
+    frame loop spin must not make the process grow as well)."""
+    from proxy.http.server import HttpWebServerBasePlugin, httpProtocolTypes
+
+    class WsSink(HttpWebServerBasePlugin):
+        def routes(self):
+            return [(httpProtocolTypes.WEBSOCKET, r'/ws$')]
+
+        def handle_request(self, request):
+            from proxy.http.responses import NOT_FOUND_RESPONSE_PKT
+            self.client.queue(NOT_FOUND_RESPONSE_PKT)
+
+        def on_websocket_message(self, frame):
+            pass
+    return WsSink
